@@ -192,7 +192,7 @@ def plan(ck):
                     M.add_updates(rng, c, 1, which=[nm] if nm else names)
                     ups += c.pop("updates")
                 rng.shuffle(ups)
-                c["updates"] = ups
+                c["updates"] = ups if (th or kind != "MG94") else ups[:3]
                 cases.append(c)
     weights = [("HKY", 40), ("GTR", 40), ("GeneralSymmetric", 40), ("GeneralNonSymmetric", 35), ("Empirical", 15)]
     mult = 6 if th else 1
@@ -271,7 +271,9 @@ def run(ck: Check):
                         ck.mismatch("MG94 masks differ from the model computed from the generated tables", {"case": c})
                 n0 = len(ck.mismatches)
                 compare_q(ck, drv, ck_, out)
-                compare_p(ck, drv, ck_, out)
+                # quick tier: the per-genetic-code dyadic MG94 cases skip the (61..64)^3 Lean Taylor run; the
+                # float MG94 cases and every other model keep it
+                compare_p(ck, drv, ck_, out, lean_taylor=ck.thorough() or not (c["kind"] == "MG94" and c["dyadic"]))
                 if k:
                     for mm in ck.mismatches[n0:]:
                         mm["detail"]["after_assignments"] = c["updates"][:k]
